@@ -139,17 +139,17 @@ Fixpoint rep_cycle (cyc : list node) (k : nat) : list node :=
    skeleton sources by the check):
      BER : SEQUENCE, SET OF (ber_check_tags on entry), CHOICE when it has tags or is
            entered through a tagged member (C: yes; M: no, untagged member m)
-     UPER: SEQUENCE, SET OF, CHOICE; the open-type reader evaluates the check and
-           DISCARDS the result -> unguarded
-     OER : SEQUENCE, SET OF; CHOICE_decode_oer has no check; open-type reader none
-     XER : no decoder evaluates the check *)
+     UPER: SEQUENCE, SET OF, CHOICE and the open-type reader
+     OER : SEQUENCE, SET OF, CHOICE; the open-type reader (oer_open_type_get) has
+           no check of its own: it sits between two guarded SEQUENCE nodes
+     XER : SEQUENCE, SET OF, CHOICE (node 8 is not part of the XER graph) *)
 Definition c15_edges : list (node * node) :=
   [(0,0); (1,1); (2,2); (3,3); (4,4); (5,6); (6,5); (7,7); (7,8); (8,7)]%nat.
 Definition c15_nodes : nat := 9.
 Definition cg_ber  : cgraph := mkCg c15_edges [0; 1; 2; 3; 4; 6; 7]%nat.
-Definition cg_uper : cgraph := mkCg c15_edges [0; 1; 2; 3; 4; 5; 6; 7]%nat.
-Definition cg_oer  : cgraph := mkCg c15_edges [0; 1; 2; 4; 6; 7]%nat.
-Definition cg_xer  : cgraph := mkCg c15_edges []%nat.
+Definition cg_uper : cgraph := mkCg c15_edges [0; 1; 2; 3; 4; 5; 6; 7; 8]%nat.
+Definition cg_oer  : cgraph := mkCg c15_edges [0; 1; 2; 3; 4; 5; 6; 7]%nat.
+Definition cg_xer  : cgraph := mkCg c15_edges [0; 1; 2; 3; 4; 5; 6; 7]%nat.
 
 (* ---------------- heap: the dynamic size of a decoded value ----------------
    One unit per value node that has a TLV of its own, one per content octet of
